@@ -139,6 +139,19 @@ func c07Probe(id string, run func() error) {
 	})
 }
 
+// kTTLWrap: stringToTTL does its sums in 64 bits without an overflow check.
+const kTTLWrap = "ttl-overflow-wraps"
+
+// wrapsTTL: the line has a TTL whose value in seconds is 2^64 or more.
+func wrapsTTL(line string) bool {
+	for _, f := range strings.Fields(line) {
+		if len(f) >= 15 && f[0] >= '0' && f[0] <= '9' && (len(f) >= 20 || strings.ContainsAny(f, "wWdDhHmM")) {
+			return true
+		}
+	}
+	return false
+}
+
 // kGenQuadratic: the text of a $GENERATE logical line is collected with s += token, which costs
 // time and allocation quadratic in the number of tokens.
 const kGenQuadratic = "generate-quadratic"
@@ -547,6 +560,14 @@ var badLines = []string{
 	"bad.example. 300 IN CLASS1 A 10.0.0.1",
 	"bad.example. 300 400 IN A 10.0.0.1",
 	"bad.example. 99999999999 IN A 10.0.0.1",
+	// TTLs beyond 32 bits, also where the library's 64-bit arithmetic wraps around
+	"bad.example. 4294967296 IN A 10.0.0.1",
+	"bad.example. 7102w IN A 10.0.0.1",
+	"bad.example. 30500568904944w IN A 10.0.0.1",
+	"bad.example. 18446744073709551621 IN A 10.0.0.1",
+	"bad.example. 5124095576030431h5 IN A 10.0.0.1",
+	"$TTL 30500568904944w",
+	"$TTL 18446744073709551616",
 	"bad.example. 300 IN NOSUCHTYPE 10.0.0.1",
 	"bad.example. 300 IN TYPE65536 \\# 0",
 	"bad.example. 300 CLASS65536 A 10.0.0.1",
@@ -579,7 +600,7 @@ var badLines = []string{
 }
 
 func genFault(t *rapid.T) faultCase {
-	o, ro := zm.GenOpts{MaxItems: 8, HostileLabels: true, ForceGenerateTTL: true}, zm.RenderOpts{ForceGenerateTTL: true, BlankBeforeComment: true,
+	o, ro := zm.GenOpts{MaxItems: 8, HostileLabels: true, ForceGenerateTTL: true}, zm.RenderOpts{ForceGenerateTTL: true, BlankBeforeComment: true, BlankWithNewline: true, NoComment511: true,
 		NoCommentBeforeKeywordRdata: true, KeywordLike: keywordLike, AvoidEscapedOnly: true}
 	// the zone itself must parse on the pinned tree: the classes of C06's known findings are avoided
 	o.KeywordLike = keywordLike
@@ -609,6 +630,10 @@ func genFault(t *rapid.T) faultCase {
 	n := len(z.FileItems(c.File))
 	c.After = rapid.IntRange(-1, n-1).Draw(t, "after")
 	c.Bad = rapid.SampledFrom(badLines).Draw(t, "bad")
+	if pbt.Known(kTTLWrap) && wrapsTTL(c.Bad) {
+		pbt.Excluded(kTTLWrap)
+		c.Bad = "bad.example. 99999999999 IN A 10.0.0.1"
+	}
 	return c
 }
 
@@ -739,7 +764,7 @@ type readFaultCase struct {
 }
 
 func genReadFault(t *rapid.T) readFaultCase {
-	o, ro := zm.GenOpts{MaxItems: 8, HostileLabels: true}, zm.RenderOpts{BlankBeforeComment: true}
+	o, ro := zm.GenOpts{MaxItems: 8, HostileLabels: true}, zm.RenderOpts{BlankBeforeComment: true, BlankWithNewline: true, NoComment511: true} // the zone itself must parse: the classes of C06's open findings are avoided
 	z := zm.GenZone(t, o)
 	den, err := zm.Denote(z)
 	if err != nil {
@@ -1559,6 +1584,18 @@ func init() {
 			}
 			if out.Err == nil {
 				return fmt.Errorf("variant %d: a name of 263 octets (255-octet relative name + origin example.) is accepted: %d records, no error", v, out.N)
+			}
+		}
+		return nil
+	})
+	c07Probe(kTTLWrap, func() error {
+		for _, line := range []string{"a 30500568904944w IN A 10.0.0.1\n", "a 18446744073709551621 IN A 10.0.0.1\n", "$TTL 30500568904944w\na IN A 10.0.0.1\n"} {
+			out, viol := runParser(map[string]string{"t.db": line}, parserCfg{File: "t.db", Origin: "example."}, nil)
+			if viol != nil {
+				return fmt.Errorf("%s", strings.SplitN(viol.Error(), "\n", 2)[0])
+			}
+			if out.Err == nil {
+				return fmt.Errorf("%q is accepted: %v", line, out.First)
 			}
 		}
 		return nil
